@@ -208,6 +208,37 @@ def XW.cmd (s : XW) : XCmd → XW
 
 def XW.run (s : XW) (cs : List XCmd) : XW := cs.foldl XW.cmd s
 
+/-! ### operations of `rdflib.graph` / `rdflib.store` that reach the wrapper as several calls -/
+
+inductive GOp
+  | store (o : XOp)                          -- one call of the wrapper
+  | addN (qs : List Quad)                    -- `Store.addN`: `for s, p, o, c in quads: self.add((s, p, o), c)` (also `+=`, a parser's adds)
+  | set (q : Quad)                           -- `Graph.set`: `self.remove((s, p, None)); self.add((s, p, o))`
+  | isub (qs : List Quad)                    -- `Graph.__isub__`: `for triple in other: self.remove(triple)`
+  | removeContext (g : Nat)                  -- `ConjunctiveGraph.remove_context`: `self.store.remove((None, None, None), context)`
+  | addForeign (q : Quad) (extra : List Triple)  -- `ConjunctiveGraph.add` of a quad whose graph is a Graph of another store:
+                                             -- `_graph(c)` copies that graph's triples in (`__iadd__`), then the quad is added
+  deriving Repr
+
+def GOp.expand : GOp → List XOp
+  | .store o => [o]
+  | .addN qs => qs.map .add
+  | .set q => [.remove (some q.1, some q.2.1, none, some q.2.2.2), .add q]
+  | .isub qs => qs.map (fun q => .remove q.pat)
+  | .removeContext g => [.remove (none, none, none, some g)]
+  | .addForeign q extra => extra.map (fun t => .add (mkQuad t q.graph)) ++ [.add q]
+
+inductive GCmd
+  | op (o : GOp)
+  | commit
+  | rollback
+  deriving Repr
+
+def GCmd.expand : GCmd → List XCmd
+  | .op o => o.expand.map .op
+  | .commit => [.commit]
+  | .rollback => [.rollback]
+
 /-! ### two wrappers side by side over one store -/
 
 structure X2 where
